@@ -40,22 +40,43 @@ def plan(tier, seed):
     return t
 
 
-def run_case(p, case, rng, rnd, dense_too=True):
+def build_case(p, case, shared_prep=None):
+    """Build the measurement circuit and its exact basis statistics now; the fitter is asked later
+    (build all circuits, run them, fit afterwards - the usual workflow).  shared_prep: one caller-owned
+    preparation circuit (with user metadata) reused for several stabilizers."""
     from qiskit import QuantumCircuit
-    from htstabilizer.tomography import stabilizer_measurement_circuit, StabilizerMeasurementFitter
+    from htstabilizer.tomography import stabilizer_measurement_circuit
     n, conn, gens = case["n"], case["conn"], case["gens"]
     cj = wp.case_json(case)
     key = "stabilizer-measurement n=%d conn=%s " % (n, conn)
     ok, st = call(ws.make_stabilizer, case, case["fmt"], random.Random(n))
     if not ok:
-        return
+        return None
     p.evals += 1
-    ok, qc = call(stabilizer_measurement_circuit, QuantumCircuit(n), st[0], conn)
+    prep = shared_prep if shared_prep is not None else QuantumCircuit(n)
+    md0 = dict(prep.metadata) if isinstance(prep.metadata, dict) else prep.metadata
+    ok, qc = call(stabilizer_measurement_circuit, prep, st[0], conn)
     if not ok:
         p.violate(key + "circuit-raises", "stabilizer_measurement_circuit raised %s for %s" % (exc_name(qc), ws.strings(gens, n)), cj)
+        return None
+    if shared_prep is not None and prep.metadata != md0:
+        p.violate(key + "caller-circuit-modified", "stabilizer_measurement_circuit changed the metadata of the caller's preparation circuit: %r -> %r"
+                  % (sorted(md0 or {}), sorted(prep.metadata or {})), cj)
+    p.counters["circuits built on a shared preparation circuit with user metadata" if shared_prep is not None else "circuits built on a fresh preparation circuit"] += 1
+    return {"case": case, "cj": cj, "qc": qc, "counts": tomo.basis_counts(qc, n), "stab": st[0], "key": key}
+
+
+def run_case(p, case, rng, rnd, dense_too=True, built=None):
+    from qiskit import QuantumCircuit
+    from htstabilizer.tomography import stabilizer_measurement_circuit, StabilizerMeasurementFitter
+    if built is None:
+        built = build_case(p, case)
+    if built is None:
         return
+    n, conn, gens = case["n"], case["conn"], case["gens"]
+    cj, key, qc, st = built["cj"], built["key"], built["qc"], (built["stab"],)
     K = 4 ** n
-    counts = tomo.basis_counts(qc, n)
+    counts = built["counts"]
     ok, ev = call(lambda: StabilizerMeasurementFitter(tomo.FakeResult(counts), qc).expectation_values())
     if not ok:
         p.violate(key + "fitter-raises", "expectation_values raised %s: %s" % (exc_name(ev), str(ev)[:160]), cj)
@@ -128,12 +149,24 @@ def work(task):
     p = Partial()
     rnd = random.Random(repr(task[-2:]))
     rng = np.random.default_rng(h64(repr(task[-2:])) % (1 << 30))
+    from qiskit import QuantumCircuit
+    shared = None
+    pending = None
     for i, case in enumerate(wp.iter_cases(task)):
-        run_case(p, case, rng, rnd, dense_too=(case["n"] <= 4 or i % 3 == 0))
+        if shared is None:
+            shared = QuantumCircuit(case["n"])
+            shared.metadata = {"experiment": "stabilizer-measurement", "owner": "caller"}
+        built = build_case(p, case, shared_prep=(shared if i % 2 else None))
+        # deferred evaluation: the previous circuit is fitted only after the next one has been built
+        if pending is not None:
+            run_case(p, pending[0], rng, rnd, dense_too=pending[1], built=pending[2])
+        pending = (case, (case["n"] <= 4 or i % 3 == 0), built) if built is not None else None
         p.counters["conf %d-%s" % (case["n"], case["conn"])] += 1
         p.extra.setdefault("labels", set()).add((case["n"], case["conn"], case["label"]))
         if len(p.samples) < 1 and case["label"]:
             p.sample(wp.sample_of(case))
+    if pending is not None:
+        run_case(p, pending[0], rng, rnd, dense_too=pending[1], built=pending[2])
     return p
 
 
@@ -151,6 +184,15 @@ def finalize(total, tier, seed):
 
 def replay(cj):
     p = Partial()
+    from qiskit import QuantumCircuit
     case = wp.case_from_json(cj)
     run_case(p, case, np.random.default_rng(1), random.Random(1))
+    # history variant: shared preparation circuit with user metadata, a second stabilizer built before fitting the first
+    shared = QuantumCircuit(case["n"])
+    shared.metadata = {"experiment": "stabilizer-measurement", "owner": "caller"}
+    b1 = build_case(p, case, shared_prep=shared)
+    other = dict(case, gens=[(0, 1 << i, 0) for i in range(case["n"])], circuit=None, graph_state=False, fmt="str+")
+    build_case(p, other, shared_prep=shared)
+    if b1 is not None:
+        run_case(p, case, np.random.default_rng(1), random.Random(1), dense_too=False, built=b1)
     return p.violations
